@@ -418,9 +418,16 @@ def walk_dollar_expansion(buff, pos, end, endchar, disable_quote=False):
     if pos == "$":
         return pos + 1
     while pos < end and buff[pos] != "}":
-        if buff[pos] == "$":
+        ch = buff[pos]
+        if ch == "$":
             # disable_quote?
             pos = walk_dollar_expansion(buff, pos + 1, end, endchar)
+        elif ch == "\\":
+            pos += 2
+        elif ch in '"`':
+            pos = walk_command_escaped_parsing(buff, pos + 1, ch) + 1
+        elif ch == "'":
+            pos = walk_statement_no_parsing(buff, pos + 1, "'") + 1
         else:
             pos += 1
     return pos + 1
